@@ -290,7 +290,7 @@ class World:
         keys = [json.dumps(e.get("spec"), sort_keys=True, default=str) for e in ents]
         ok = grown == full
         if not ok and B["spec"]["kind"] != "shot" and len(ents) <= 6:
-            elig = [i for i, k in enumerate(keys) if k in seen]
+            elig = [i for i, k in enumerate(keys) if k in seen or k in keys[:i]]   # (also: the same circuit earlier in this batch)
             fixed = [i for i in range(len(ents)) if i not in elig]
             for mask in range(1 << len(elig)):
                 S = fixed + [i for b, i in enumerate(elig) if mask >> b & 1]
@@ -306,7 +306,7 @@ class World:
                 # fewer native invocations than the request has native runs: either exactly what was counted (circuits
                 # answered from memory and not counted), or - counted as if run - at least the runs of every circuit this
                 # runner had not evaluated before
-                must = sum(d[1] for k, d in zip(keys, deltas) if k not in seen)
+                must = sum(d[1] for i, (k, d) in enumerate(zip(keys, deltas)) if k not in seen and k not in keys[:i])
                 ctx.check(observed == grown[1] or (grown == full and must <= observed <= full[1]), "counter", "peer-invocations",
                           f"{what}: the peer saw {observed} native sub-circuits, the request has {full[1]} native runs "
                           f"({must} of them in circuits never evaluated before), counters grew by {grown}")
